@@ -54,15 +54,16 @@ ANALYSES = ["solve", "rail_rep", "params", "limits", "phases", "tree", "save", "
 
 
 def _run(ctx, sysobj, shape, what, tags):
+    W = "bounded"  # the real warning code runs (limits are compared for real; quantities stay inside the default ranges)
     if what == "solve":
-        return snap.frame_by_name(sysh.run_solve(ctx, sysobj, shape, tags=tags))
+        return snap.frame_by_name(sysh.run_solve(ctx, sysobj, shape, tags=tags, stub_warns=W))
     if what == "solve_energy":
-        return snap.frame_by_name(sysh.run_solve(ctx, sysobj, shape, energy=True))
+        return snap.frame_by_name(sysh.run_solve(ctx, sysobj, shape, energy=True, stub_warns=W))
     if what == "solve_phase":
         ph = shape.get("phases")
-        return snap.frame_by_name(sysh.run_solve(ctx, sysobj, shape, phase=ph[-1])) if ph else None
+        return snap.frame_by_name(sysh.run_solve(ctx, sysobj, shape, phase=ph[-1], stub_warns=W)) if ph else None
     if what == "rail_rep":
-        return snap.frame_cells(sysh.run_solve(ctx, sysobj, shape, method="rail_rep"))
+        return snap.frame_cells(sysh.run_solve(ctx, sysobj, shape, method="rail_rep", stub_warns=W))
     if what == "params":
         return snap.frame_by_name(sysobj.params(limits=True))
     if what == "limits":
@@ -171,8 +172,8 @@ def instances(tier):
         "rails-phases": S(N("S", "Source", rail="VIN", only=()), N("C", "Converter", "S", rail="3V3", phases=["a"], only=("iis",)),
                           N("L", "ILoad", "C", phases=["a", "b"], only=()), N("L2", "PLoad", "S", phases=["a"], only=("pwrs",)),
                           N("L3", "RLoad", "S", phases=["b"], only=()), N("L4", "ILoad", "S", phases=["b"], only=("iis",)), phases=["a", "b"]),
-        "two-src": S(N("S1", "Source", only=()), N("L1", "ILoad", "S1", only=()), N("S2", "Source", only=()), N("G", "LinReg", "S2", only=("vdrop",)),
-                     N("L2", "ILoad", "G", only=())),
+        "two-src": S(N("S1", "Source", only=()), N("L1", "ILoad", "S1", only=()), N("S2", "Source", only=()), N("G", "LinReg", "S2", only=("vdrop",), limits={"vo": [-1.0, -20.0], "tp": [-40.0, 85.0]}),
+                     N("L2", "ILoad", "G", only=(), limits={"vi": [-0.5, -30.0]})),
         "mux": S(N("S1", "Source", pol="nonneg", only=()), N("S2", "Source", only=()), N("M", "PMux", ["S1", "S2"], only=("rs",)), N("L", "ILoad", "M", only=())),
     }
     names = ["rail_rep", "params", "limits", "phases", "tree", "save", "batt_life", "solve_phase", "solve_energy", "solve"]
